@@ -174,4 +174,410 @@ def FieldKeys.updateEntries (fk : FieldKeys) (nk : List (Nat × Nat)) : FieldKey
 def FieldKeys.update (fk : FieldKeys) (ks : List Nat) : FieldKeys :=
   fk.updateEntries (enumKeys ks 0 [])
 
+
+/-! ## values -/
+
+inductive Tag | struct | opt | vec | kvec
+deriving DecidableEq, Repr
+
+/-- the store's value: a struct (`node struct fields`), `Option` (`node opt []` / `node opt [x]`),
+`Vec` (`node vec items`), keyed `Vec` (`node kvec items`, key = first field of the item) or a leaf -/
+inductive Val
+  | leaf (n : Nat)
+  | node (tag : Tag) (xs : List Val)
+deriving Repr
+
+def Val.child : Val → Nat → Option Val
+  | .leaf _, _ => none
+  | .node _ xs, i => xs[i]?
+
+def Val.setChild : Val → Nat → Val → Val
+  | .leaf n, _, _ => .leaf n
+  | .node t xs, i, c => .node t (xs.set i c)
+
+def Val.get (v : Val) : List Nat → Option Val
+  | [] => some v
+  | i :: r =>
+    match v.child i with
+    | some c => c.get r
+    | none => none
+
+def Val.set (v : Val) : List Nat → Val → Val
+  | [], w => w
+  | i :: r, w =>
+    match v.child i with
+    | some c => v.setChild i (c.set r w)
+    | none => v
+
+def Val.items : Val → List Val
+  | .leaf _ => []
+  | .node _ xs => xs
+
+def Val.tag? : Val → Option Tag
+  | .leaf _ => none
+  | .node t _ => some t
+
+/-- the key function of the family: `|row| row.id`, the first field -/
+def Val.keyOf : Val → Nat
+  | .node _ (.leaf k :: _) => k
+  | _ => 0
+
+def Val.keys (v : Val) : List Nat := v.items.map Val.keyOf
+
+mutual
+/-- `PatchField::patch_field(&mut old, new, path, notify)`: new value and the paths passed to `notify`, in order -/
+def patchVal : Val → Val → Path → Val × List Path
+  | .leaf a, .leaf b, p => if a = b then (.leaf a, []) else (.leaf b, [p])
+  | .node t xs, .node _ ys, p =>
+    if xs.isEmpty && ys.isEmpty then (.node t xs, [])
+    else if ys.isEmpty then (.node t [], [p])
+    else if xs.isEmpty then (.node t ys, [p])
+    else
+      let r := patchList xs ys p 0
+      (.node t r.1, r.2 ++ (if xs.length ≠ ys.length then [p] else []))
+  | _, new, p => (new, [p])
+def patchList : List Val → List Val → Path → Nat → List Val × List Path
+  | x :: xs, y :: ys, p, i =>
+    let a := patchVal x y (p ++ [i])
+    let b := patchList xs ys p (i + 1)
+    (a.1 :: b.1, a.2 ++ b.2)
+  | [], ys, _, _ => (ys, [])
+  | _ :: _, [], _, _ => ([], [])
+end
+
+/-! ## accessor chains -/
+
+inductive Acc
+  | fld (i : Nat)
+  | idx (i : Nat)
+  | kfld (i : Nat)
+  | key (k : Nat)
+deriving DecidableEq, Repr
+
+/-- root first: `store.mid().rows().at_key(10).label()` is `[fld 1, kfld 2, key 10, fld 1]` -/
+abbrev Chain := List Acc
+
+/-- what a reader saw -/
+inductive Seen
+  | val (v : Val)
+  | none      -- `reader()` returned `None` (key not in the key table)
+  | absent    -- not read: the field does not exist in the current value (`None.unwrap()`, index ≥ len)
+  | panic     -- `reader()` panicked (stale index out of bounds)
+deriving Repr
+
+structure Eff where
+  chain : Chain
+  iter : Bool
+  imm : Bool
+  woken : Bool
+deriving Repr
+
+structure St where
+  val : Val
+  keys : List (Path × FieldKeys)
+  subs : List (Trig × List Nat)
+  effs : List Eff
+  log : List (Nat × Seen)
+  panicked : Bool
+
+def St.init (v : Val) : St := { val := v, keys := [], subs := [], effs := [], log := [], panicked := false }
+
+/-! ### key tables (`KeyMap::with_field_keys`) -/
+
+def keysLookup (m : List (Path × FieldKeys)) (p : Path) : Option FieldKeys :=
+  match m.find? (·.1 = p) with
+  | some e => some e.2
+  | none => none
+
+def keysStore (m : List (Path × FieldKeys)) (p : Path) (fk : FieldKeys) : List (Path × FieldKeys) :=
+  match m with
+  | [] => [(p, fk)]
+  | (q, e) :: rest => if q = p then (p, fk) :: rest else (q, e) :: keysStore rest p fk
+
+/-- `latest_keys()` of the keyed field whose value sits at `vpos` -/
+def latestKeys (v : Val) (vpos : Option Path) : List Nat :=
+  match vpos with
+  | some pos => match v.get pos with
+    | some x => x.keys
+    | none => []
+  | none => []
+
+/-- the table for the keyed field at trigger path `tp`, created by `FieldKeys::new(latest_keys())` on first use -/
+def withFieldKeys (st : St) (tp : Path) (vpos : Option Path) : St × FieldKeys :=
+  match keysLookup st.keys tp with
+  | some fk => (st, fk)
+  | none =>
+    let fk := FieldKeys.new (latestKeys st.val vpos)
+    ({ st with keys := keysStore st.keys tp fk }, fk)
+
+/-- `KeyedSubfield::update_keys` -/
+def updateKeys (st : St) (tp : Path) (vpos : Option Path) : St :=
+  let r := withFieldKeys st tp vpos
+  { r.1 with keys := keysStore r.1.keys tp (r.2.update (latestKeys r.1.val vpos)) }
+
+/-! ### walking a chain -/
+
+structure Walk where
+  tpath : Path            -- `self.path()`
+  parent : Path           -- `self.inner.path()`
+  vpos : Option Path      -- where `reader()` looks in the value; `none`: key not in the table
+  tr : List Trig          -- dropping `self.writer()` notifies these, in order
+  un : List Trig          -- … and these if `untrack()` was called on it first
+  absent : Bool           -- a plain field / index step has no value to look at
+  oob : Bool              -- a key step's stored index is out of bounds (the real `reader()` panics)
+  last : Option Acc
+deriving Repr
+
+def Walk.root : Walk :=
+  { tpath := [], parent := [], vpos := some [], tr := [C []], un := [], absent := false, oob := false, last := none }
+
+def childExists (v : Val) (vpos : Option Path) (i : Nat) : Bool :=
+  match vpos with
+  | some pos => match v.get (pos ++ [i]) with
+    | some _ => true
+    | none => false
+  | none => true
+
+def stepAcc (sw : St × Walk) (a : Acc) : St × Walk :=
+  let st := sw.1
+  let w := sw.2
+  match a with
+  | .fld i | .kfld i =>
+    let tp := w.tpath ++ [i]
+    (st, { w with tpath := tp, parent := w.tpath, vpos := w.vpos.map (· ++ [i]),
+                  tr := w.un ++ triggersForPath tp, un := w.un,
+                  absent := w.absent || (!w.oob && !childExists st.val w.vpos i), last := some a })
+  | .idx i =>
+    let tp := w.tpath ++ [i]
+    (st, { w with tpath := tp, parent := w.tpath, vpos := w.vpos.map (· ++ [i]),
+                  tr := w.tr ++ [C tp], un := w.tr,
+                  absent := w.absent || (!w.oob && !childExists st.val w.vpos i), last := some a })
+  | .key k =>
+    let r := withFieldKeys st w.tpath w.vpos
+    match r.2.get k with
+    | some (seg, idx) =>
+      let tp := w.tpath ++ [seg]
+      (r.1, { w with tpath := tp, parent := w.tpath, vpos := w.vpos.map (· ++ [idx]),
+                     tr := w.un ++ triggersForPath tp, un := w.un,
+                     oob := w.oob || !childExists r.1.val w.vpos idx, last := some a })
+    | none =>
+      (r.1, { w with parent := w.tpath, vpos := none,
+                     tr := w.un ++ triggersForPath w.tpath, un := w.un, last := some a })
+
+def walk (st : St) (c : Chain) : St × Walk := c.foldl stepAcc (st, Walk.root)
+
+/-- what `track()` of the accessor at the end of the chain tracks, in order -/
+def Walk.trackList (w : Walk) : List Trig :=
+  match w.last with
+  | none => defaultTrack []
+  | some (.fld _) => subfieldTrack w.tpath
+  | some (.kfld _) => keyedFieldTrack w.parent w.tpath
+  | some (.idx _) => defaultTrack w.tpath
+  | some (.key _) => defaultTrack w.tpath
+
+/-- what the reader closure of the harness logs after tracking -/
+def Walk.read (w : Walk) (v : Val) : Seen :=
+  if w.absent then .absent
+  else match w.vpos with
+    | none => .none
+    | some pos =>
+      if w.oob then .panic
+      else match v.get pos with
+        | some x => .val x
+        | none => .panic
+
+/-! ### subscriber sets, effects -/
+
+def subsOf (m : List (Trig × List Nat)) (t : Trig) : List Nat :=
+  match m.find? (·.1 = t) with
+  | some e => e.2
+  | none => []
+
+def subsSet (m : List (Trig × List Nat)) (t : Trig) (l : List Nat) : List (Trig × List Nat) :=
+  match m with
+  | [] => [(t, l)]
+  | (u, e) :: rest => if u = t then (t, l) :: rest else (u, e) :: subsSet rest t l
+
+/-- `SubscriberSet::subscribe`: push unless present -/
+def subscribe (m : List (Trig × List Nat)) (e : Nat) (t : Trig) : List (Trig × List Nat) :=
+  let l := subsOf m t
+  if l.contains e then m else subsSet m t (l ++ [e])
+
+/-- `clear_sources`: remove the effect from every set, order of the others preserved -/
+def unsubscribeAll (m : List (Trig × List Nat)) (e : Nat) : List (Trig × List Nat) :=
+  m.map fun (t, l) => (t, l.filter (· ≠ e))
+
+def setWoken (effs : List Eff) (e : Nat) (b : Bool) : List Eff :=
+  match effs[e]? with
+  | some x => effs.set e { x with woken := b }
+  | none => effs
+
+/-- one run of reader `e`: clear sources, (keyed iteration: `update_keys`), track, read, log -/
+def runEff (st : St) (e : Nat) : St :=
+  match st.effs[e]? with
+  | none => st
+  | some x =>
+    let st1 := { st with subs := unsubscribeAll st.subs e }
+    let r0 := walk st1 x.chain
+    let st2 := if x.iter then updateKeys r0.1 r0.2.tpath r0.2.vpos else r0.1
+    let r := walk st2 x.chain
+    let st3 := { r.1 with subs := r.2.trackList.foldl (fun m t => subscribe m e t) r.1.subs }
+    let seen := r.2.read st3.val
+    { st3 with log := st3.log ++ [(e, seen)],
+               panicked := st3.panicked || (match seen with | .panic => true | _ => false) }
+
+/-- `mark_dirty` of one subscriber -/
+def markDirty (st : St) (e : Nat) : St :=
+  match st.effs[e]? with
+  | none => st
+  | some x => if x.imm then runEff st e else { st with effs := setWoken st.effs e true }
+
+/-- `ArcTrigger::notify`: the subscriber list is taken, then every subscriber is marked dirty in order -/
+def notifyTrig (st : St) (t : Trig) : St :=
+  let l := subsOf st.subs t
+  l.foldl markDirty { st with subs := subsSet st.subs t [] }
+
+def notifyAll (st : St) (ts : List Trig) : St := ts.foldl notifyTrig st
+
+/-! ### operations -/
+
+inductive Op
+  | reader (c : Chain) (iter imm : Bool)
+  | set (c : Chain) (v : Val)
+  | patch (c : Chain) (v : Val)
+  | kpush (c : Chain) (v : Val)
+  | kremove (c : Chain) (i : Nat)
+  | kswap (c : Chain) (i j : Nat)
+  | krev (c : Chain)
+  | poll (i : Nat)
+  | idle
+deriving Repr
+
+/-- ids of woken asynchronous effects, in spawn order: the executor's ready list -/
+def readyGo : List Eff → Nat → List Nat
+  | [], _ => []
+  | x :: rest, i => if !x.imm && x.woken then i :: readyGo rest (i + 1) else readyGo rest (i + 1)
+
+def St.ready (st : St) : List Nat := readyGo st.effs 0
+
+/-- result of trying to write through a chain -/
+inductive Wrote
+  | done | absent | none | panic
+deriving DecidableEq, Repr
+
+/-- a write of `f old` through the accessor at the end of `c` (`Write::try_write`, then the guard is dropped) -/
+def writeVia (st : St) (c : Chain) (f : Val → Val) : St × Wrote :=
+  let r := walk st c
+  let st := r.1
+  let w := r.2
+  if w.absent then (st, .absent)
+  else match w.vpos with
+    | none => (st, .none)
+    | some pos =>
+      match (if w.oob then none else st.val.get pos) with
+      | none => ({ st with panicked := true }, .panic)
+      | some old =>
+        let st := { st with val := st.val.set pos (f old) }
+        match w.last with
+        | none => (notifyAll st rootWriteNotify, .done)
+        | some (.kfld _) =>
+          let st := notifyAll st w.tr
+          let st := updateKeys st w.tpath w.vpos
+          (notifyAll st [T w.tpath, C w.tpath], .done)
+        | some _ => (notifyAll st w.tr, .done)
+
+/-- `Patch::patch`: untracked writer, `triggers_for_path(path).notify()` for every changed path, then the
+writer is dropped -/
+def patchVia (st : St) (c : Chain) (new : Val) : St × Wrote :=
+  let r := walk st c
+  let st := r.1
+  let w := r.2
+  if w.absent then (st, .absent)
+  else match w.vpos with
+    | none => (st, .none)
+    | some pos =>
+      match (if w.oob then none else st.val.get pos) with
+      | none => ({ st with panicked := true }, .panic)
+      | some old =>
+        let pr := patchVal old new w.tpath
+        let st := { st with val := st.val.set pos pr.1 }
+        let st := pr.2.foldl (fun s p => notifyAll s (triggersForPath p)) st
+        (notifyAll st w.un, .done)
+
+def swapList (xs : List Val) (i j : Nat) : List Val :=
+  match xs[i]?, xs[j]? with
+  | some a, some b => (xs.set i b).set j a
+  | _, _ => xs
+
+def idleGo (st : St) : List Nat → St
+  | [] => st
+  | e :: rest =>
+    match st.effs[e]? with
+    | some x =>
+      if !x.imm && x.woken then idleGo (runEff { st with effs := setWoken st.effs e false } e) rest
+      else idleGo st rest
+    | none => idleGo st rest
+
+def stepOp (st : St) (op : Op) : St × Wrote :=
+  let st := { st with log := [] }
+  match op with
+  | .reader c iter imm =>
+    let e := st.effs.length
+    let st := { st with effs := st.effs ++ [{ chain := c, iter := iter, imm := imm, woken := !imm }] }
+    (if imm then runEff st e else st, .done)
+  | .set c v => writeVia st c (fun _ => v)
+  | .patch c v => patchVia st c v
+  | .kpush c v => writeVia st c (fun old => match old with | .node t xs => .node t (xs ++ [v]) | x => x)
+  | .kremove c i => writeVia st c (fun old => match old with | .node t xs => .node t (xs.eraseIdx i) | x => x)
+  | .kswap c i j => writeVia st c (fun old => match old with | .node t xs => .node t (swapList xs i j) | x => x)
+  | .krev c => writeVia st c (fun old => match old with | .node t xs => .node t xs.reverse | x => x)
+  | .poll i =>
+    let r := st.ready
+    match r[i % r.length]? with
+    | some e => (runEff { st with effs := setWoken st.effs e false } e, .done)
+    | none => (st, .done)
+  | .idle => (idleGo st (List.range st.effs.length), .done)
+
+
+/-! ## the specification side: logical addressing (by key, not by index) -/
+
+/-- the value a reader of `c` ought to see: items of keyed collections are found by their key -/
+def logicalGet : Val → Chain → Seen
+  | v, [] => .val v
+  | v, .fld i :: r | v, .kfld i :: r | v, .idx i :: r =>
+    match v.child i with
+    | some c => logicalGet c r
+    | none => .absent
+  | v, .key k :: r =>
+    match v.items.find? (fun x => x.keyOf = k) with
+    | some c => logicalGet c r
+    | none => .none
+
+def Acc.norm : Acc → Acc
+  | .kfld i => .fld i
+  | a => a
+
+/-- two accessor chains are related when one addresses an ancestor (or the same field) of the other -/
+def related (w r : Chain) : Bool :=
+  (w.map Acc.norm).isPrefixOf (r.map Acc.norm) || (r.map Acc.norm).isPrefixOf (w.map Acc.norm)
+
+mutual
+/-- the fields that differ between two values, as accessor chains (what `patch` ought to notify) -/
+def diffVal : Val → Val → Chain → List Chain
+  | .leaf a, .leaf b, c => if a = b then [] else [c]
+  | .node t xs, .node _ ys, c =>
+    if xs.isEmpty && ys.isEmpty then []
+    else if xs.isEmpty || ys.isEmpty then [c]
+    else diffList t xs ys c 0 ++ (if xs.length ≠ ys.length then [c] else [])
+  | _, _, c => [c]
+def diffList : Tag → List Val → List Val → Chain → Nat → List Chain
+  | t, x :: xs, y :: ys, c, i =>
+    (match t with
+     | .kvec => if x.keyOf = y.keyOf then diffVal x y (c ++ [.key x.keyOf]) else [c]
+     | .vec => diffVal x y (c ++ [.idx i])
+     | _ => diffVal x y (c ++ [.fld i])) ++ diffList t xs ys c (i + 1)
+  | _, [], _, _, _ => []
+  | _, _ :: _, [], _, _ => []
+end
+
 end Leptos.Store
